@@ -62,6 +62,17 @@ type C10Q struct {
 	E []int `json:"e"`
 }
 
+// structs the bitmap key matcher is not built for (more than 16 fields, non-ASCII names): their keys go
+// through the decoder's maps
+type C10Wide struct {
+	Alpha, Beta, Gamma, Delta, Epsilon, Zeta, Eta, Theta, Iota, Kappa, Lambda, Mu, Nu, Xi, Omicron, Pi, Rho, Sigma int
+}
+type C10Uni struct {
+	Été   int `json:"été"`
+	Größe int `json:"größe"`
+	Plain int `json:"plain"`
+}
+
 type c10Op struct {
 	name string
 	run  func() string
@@ -186,6 +197,41 @@ func c10Ops(rng *rand.Rand, k int) []c10Op {
 			e1 := json.Compact(&x, []byte(d.doc))
 			e2 := json.Indent(&y, []byte(d.doc), "", "\t")
 			return fmt.Sprintf("%v|%s|%s|%s|%s", json.Valid([]byte(d.doc)), x.String(), c11Err(e1), y.String(), c11Err(e2))
+		})
+	}
+	// keys in every spelling, into the wide and the non-ASCII struct
+	wideNames := []string{"Alpha", "Beta", "Gamma", "Delta", "Epsilon", "Zeta", "Eta", "Theta", "Iota", "Kappa", "Lambda", "Mu", "Nu", "Xi", "Omicron", "Pi", "Rho", "Sigma"}
+	for j := 0; j < 12; j++ {
+		var parts []string
+		for i, n := range wideNames {
+			sp := []byte(n)
+			for x := range sp {
+				if (x*7+i*3+j*5+k)%3 == 0 {
+					if sp[x] >= 'a' && sp[x] <= 'z' {
+						sp[x] -= 32
+					} else if sp[x] >= 'A' && sp[x] <= 'Z' {
+						sp[x] += 32
+					}
+				}
+			}
+			parts = append(parts, fmt.Sprintf("%q:%d", sp, i+j))
+		}
+		wdoc := "{" + strings.Join(parts, ",") + "}"
+		udoc := []string{`{"ÉTÉ":1,"GRÖSSE":2,"Plain":3}`, `{"Été":4,"größe":5,"PLAIN":6}`, `{"éTé":7,"GRöSSE":8,"pLAIN":9}`}[j%3]
+		add(fmt.Sprint("Unmarshal(wide)#", j), func() string {
+			var v C10Wide
+			err, pan := safeDo(func() error { return json.Unmarshal([]byte(wdoc), &v) })
+			return fmt.Sprintf("%+v err=%s panic=%s", v, c11Err(err), pan)
+		})
+		add(fmt.Sprint("Decoder(wide)#", j), func() string {
+			var v C10Wide
+			err, pan := safeDo(func() error { return json.NewDecoder(&chunkReader{data: []byte(wdoc), size: 9}).Decode(&v) })
+			return fmt.Sprintf("%+v err=%s panic=%s", v, c11Err(err), pan)
+		})
+		add(fmt.Sprint("Unmarshal(non-ascii)#", j), func() string {
+			var v C10Uni
+			err, pan := safeDo(func() error { return json.Unmarshal([]byte(udoc), &v) })
+			return fmt.Sprintf("%+v err=%s panic=%s", v, c11Err(err), pan)
 		})
 	}
 	for _, f := range fresh {
@@ -327,7 +373,9 @@ func runC10(c *Ctx) {
 	raceEnv := []string{"GORACE=halt_on_error=1 exitcode=66", "VERIF_NO_RLIMIT=1", "GOMEMLIMIT=8GiB"}
 	c.Chunk, c.CaseBudget, c.WorkerExe, c.WorkerEnv = 1, 120, raceExe, raceEnv
 	c.RunCases("racecold", 8, func(c *Ctx, k int, rng *rand.Rand) { c10Case(c, k, rng, "race-cold") },
-		func(k int, rng *rand.Rand) string { return fmt.Sprint("race build, concurrent case (fresh process) ", k) }, nil)
+		func(k int, rng *rand.Rand) string {
+			return fmt.Sprint("race build, concurrent case (fresh process) ", k)
+		}, nil)
 	c.Chunk, c.CaseBudget, c.WorkerExe, c.WorkerEnv = 4, 120, raceExe, raceEnv
 	c.RunCases("race", nr, func(c *Ctx, k int, rng *rand.Rand) { c10Case(c, k, rng, "race") },
 		func(k int, rng *rand.Rand) string { return fmt.Sprint("race build, concurrent case ", k) }, nil)
